@@ -222,6 +222,9 @@ fn impossible_cmd() -> BoxedStrategy<(Cmd, &'static str)> {
             (c, "unknown-command")
         }),
         3 => arity.prop_map(move |v| (to_cmd(v), "wrong-arity")),
+        // errors built by other routes than the usual constructor, carrying request bytes: a
+        // script returning an error table, a script raising with the argument as message
+        2 => (select(vec![bs("return {err=ARGV[1]}"), bs("error(ARGV[1])"), bs("return redis.pcall('NOSUCH' .. ARGV[1])"), bs("return redis.call(ARGV[1])")]), hostile_arg()).prop_filter_map("a non-empty message", |(src, a)| if a.is_empty() { None } else { Some((vec![bs("EVAL"), src, bs("0"), a], "script-error-with-request-bytes")) }),
         4 => wrongtype.prop_map(move |v| (to_cmd(v), "wrong-type")),
         4 => badarg.prop_map(move |v| (to_cmd(v), "bad-argument")),
     ]
